@@ -87,7 +87,8 @@ impl<'p> Interp<'p> {
             input: input.to_vec(),
             log: Vec::new(),
             fuel,
-            consts: HashMap::new(),
+            // the registered constants of the harness runtime are visible in every program
+            consts: crate::host::host_consts().into_iter().map(|(n, _, v)| (n.to_string(), v)).collect(),
             scopes: Vec::new(),
             depth: 0,
             max_depth: 200,
